@@ -200,8 +200,17 @@ def run(chk, tier):
                 for conds, leaf in pre:
                     if any(len(c) == 3 and c[0] == ("discr", hdr) and c[2] == ((1, 1),) for c in conds):
                         continue
-                    turned = [c[2] for c in conds if len(c) == 3 and loops.strip_widen(c[0]) == cnt]
-                    if turned and all(lo > MAX_CUTS for rs in turned for lo, hi in rs):
+                    # the path's conditions with the count replaced by each legal value: it must be closed to all of them
+                    def holds(c, n):
+                        t = sym.rebuild(c[0], {cnt: C(n, "u16")})
+                        if len(c) == 2:
+                            return (t == TRUE) == c[1] if t in (TRUE, FALSE) else None
+                        if sym.is_c(t) and isinstance(t[1], int):
+                            return any(lo <= t[1] <= hi for lo, hi in c[2])
+                        return None
+                    rest = [c for c in conds if not (len(c) == 3 and c[0] == ("discr", hdr))]
+                    open_for = [n for n in range(MAX_CUTS + 1) if all(holds(c, n) is not False for c in rest)]
+                    if rest and not open_for:
                         continue
                     bad.append("; ".join("%s in %s" % (show(c[0])[:60], c[2]) if len(c) == 3 else "%s is %s" % (show(c[0])[:60], c[1]) for c in conds))
                 chk.ob("R-ERR", FN, not bad, "no message with 0..=%d cuts is turned away before its cuts are read" % MAX_CUTS if not bad else
